@@ -187,6 +187,7 @@ func jlStream(seed uint64, tier string, outDir string, props map[string]bool, fo
 		ncases = 1500
 	}
 	var cases []string
+	distinctSeen := map[string]bool{}
 	flush := func() {
 		if len(cases) == 0 {
 			return
@@ -316,7 +317,10 @@ func jlStream(seed uint64, tier string, outDir string, props map[string]bool, fo
 		cases = append(cases, fmt.Sprintf("mkjc %s %s %s %s %s", T, gColdefs(cols), gStr("{}"), gList(glines), seen(ra)))
 		cases = append(cases, fmt.Sprintf("mkjc %s [] %s %s %s", T, gStr(inline), gList(glines), seen(rb)))
 		rep.Cases += 2
-		rep.Distinct += 2
+		if key := gColdefs(cols) + "|" + stdin; !distinctSeen[key] {
+			distinctSeen[key] = true
+			rep.Distinct += 2 // the file form and the inline form of the same columns are two cases
+		}
 		if len(rep.Samples) < 4 {
 			rep.Samples = append(rep.Samples, "jl -t '"+inline+"' < "+fmt.Sprintf("%q", stdin))
 		}
